@@ -152,6 +152,7 @@ type Engine struct {
 	pathCover map[string]bool
 	onceDone  map[*Value]bool
 	decided   map[*Term]bool
+	concretized map[*Term]*big.Int
 	usedVars  map[string]bool
 	noNumStr  bool
 	ptrIDs    map[*Value]uint64
@@ -432,6 +433,15 @@ func (e *Engine) concretizeTerm(t *Term, what string) *big.Int {
 	if t.Const {
 		return t.I
 	}
+	if v, ok := e.concretized[t]; ok {
+		return v
+	}
+	r := e.concretizeTerm1(t, what)
+	e.concretized[t] = r
+	return r
+}
+
+func (e *Engine) concretizeTerm1(t *Term, what string) *big.Int {
 	mkConst := func(v *big.Int) *Term {
 		if t.Sort.K == SBV {
 			return e.ts.BV(v.Uint64(), t.Sort.W)
@@ -813,6 +823,7 @@ func (e *Engine) resetPath() {
 	e.pathCover = map[string]bool{}
 	e.onceDone = map[*Value]bool{}
 	e.decided = map[*Term]bool{}
+	e.concretized = map[*Term]*big.Int{}
 	e.usedVars = map[string]bool{}
 	e.ptrIDs = map[*Value]uint64{}
 	e.stepCtr = 0
